@@ -70,11 +70,14 @@ func genAddr(t *rapid.T) addr {
 
 // chunked returns readers that hand out the same bytes in pieces, as a network stream or an HTTP body does.
 func chunked(b []byte) map[string]io.Reader {
-	return map[string]io.Reader{
-		"one byte at a time":        iotest.OneByteReader(bytes.NewReader(b)),
+	m := map[string]io.Reader{
 		"half of the request":       iotest.HalfReader(bytes.NewReader(b)),
 		"data together with io.EOF": iotest.DataErrReader(bytes.NewReader(b)),
 	}
+	if len(b) <= 64<<10 {
+		m["one byte at a time"] = iotest.OneByteReader(bytes.NewReader(b)) // millions of Read calls for the several-MiB cases
+	}
+	return m
 }
 
 func genMsg(t *rapid.T) msgCase {
@@ -82,6 +85,25 @@ func genMsg(t *rapid.T) msgCase {
 	n := rapid.OneOf(rapid.IntRange(0, 5), rapid.IntRange(0, 32)).Draw(t, "naddrs")
 	for i := 0; i < n; i++ {
 		c.Addrs = append(c.Addrs, genAddr(t))
+	}
+	huge := rapid.IntRange(0, 499).Draw(t, "huge") == 321 // (rapid favours the ends of a range: an interior value is the rare one)
+	if huge {
+		// every field within its own cap, the whole message several MiB: 2 MiB of extra data (the byte-string
+		// cap) next to one or two addresses of up to 2 MiB
+		c.ExtraData = gen.BoundaryBytes(1<<20, 2<<20-1).Draw(t, "xdhuge")
+		if len(c.ExtraData) > 2<<20 {
+			c.ExtraData = c.ExtraData[:2<<20]
+		}
+		na := rapid.IntRange(1, 2).Draw(t, "nhugeaddrs")
+		for i := 0; i < na; i++ {
+			body := gen.BoundaryBytes(1<<20, 2<<20-8).Draw(t, "addrhuge")
+			c.Addrs = append(c.Addrs, addr{Kind: "unknown", Bytes: append(uv(0x3f42), body...)})
+		}
+		if rapid.Bool().Draw(t, "origpeer") {
+			c.OrigPeer = rapid.IntRange(0, len(gen.Keys())-1).Draw(t, "opkey")
+		}
+		c.Sender = "none"
+		return c
 	}
 	switch rapid.IntRange(0, 9).Draw(t, "xdclass") {
 	case 0:
@@ -177,6 +199,9 @@ func runMsg(c msgCase) pbt.Result {
 	}
 	if nUnknown > 0 {
 		res.Classes = append(res.Classes, "has-unknown-proto-addr")
+	}
+	if len(c.ExtraData) >= 1<<20-1 {
+		res.Classes = append(res.Classes, "several-MiB")
 	}
 	res.NonTrivial = len(c.Addrs) > 0 && (len(c.ExtraData) > 0 || c.OrigPeer >= 0)
 
@@ -347,7 +372,7 @@ func merge(base, f pbt.Result) pbt.Result {
 
 func TestC10_RoundTrip(t *testing.T) {
 	pbt.Run(t, pbt.Config{Prop: "C10", Unit: "TestC10_RoundTrip",
-		Rule: "messages: any defined CID, 0..32 address byte strings (valid multiaddrs, some already ending in a /p2p component, multiaddrs with unregistered protocol codes, empty strings), extra data 0..4096 B, OrigPeer absent or a peer-ID string; oracles: CBOR and JSON round trips give an equal message (nil == empty), also when the CBOR arrives through readers that deliver it in pieces, also when the CBOR is decoded into a Message that already holds another message, 3- vs 4-field CBOR form chosen by OrigPeer, GetAddrs skips unknown-protocol addresses and keeps the rest in order, httpsender Send/SendJson (1 or 2 URLs, optional sender-level extra data) put on the wire a message a receiver decodes to the original with /p2p/<publisher> appended to every known-protocol address. Non-trivial: >= 1 address and (extra data or OrigPeer); distinct by case.",
+		Rule: "messages: any defined CID, 0..32 address byte strings (valid multiaddrs, some already ending in a /p2p component, multiaddrs with unregistered protocol codes, empty strings), extra data 0..4096 B (roughly one case in 1000: 1..2 MiB of extra data next to one or two addresses of 1..2 MiB, each field within its own cap), OrigPeer absent or a peer-ID string; oracles: CBOR and JSON round trips give an equal message (nil == empty), also when the CBOR arrives through readers that deliver it in pieces, also when the CBOR is decoded into a Message that already holds another message, 3- vs 4-field CBOR form chosen by OrigPeer, GetAddrs skips unknown-protocol addresses and keeps the rest in order, httpsender Send/SendJson (1 or 2 URLs, optional sender-level extra data) put on the wire a message a receiver decodes to the original with /p2p/<publisher> appended to every known-protocol address. Non-trivial: >= 1 address and (extra data or OrigPeer); distinct by case.",
 		Assumptions: []string{"messages with an empty address byte string are not sent (GetAddrs legitimately fails on them)", "loopback HTTP capture server"},
 	}, genMsg, runMsg)
 }
